@@ -427,7 +427,7 @@ def global_stand_in(prop, tier, seed, why):
           'assumptions': ASSUMPTION_IDS, 'wall_s': 0, 'violations': 0}
     if ORACLES.get(prop) and not os.environ.get('VERIF_NO_WITNESS'):
         rdir = os.path.join(VERIF, 'replays', prop)
-        hits, runs, note = run_searches(prop, seed or 1, 3000 if tier == 'quick' else 12000, rdir, 'bounded')
+        hits, runs, note = run_searches(prop, seed or 1, 5000 if tier == 'quick' else 12000, rdir, 'bounded')
         ev['coverage']['bounded'] = [{'functions': ['<whole crate>'], 'stand_in': 'randomized search over histories of the real contract with the oracle(s) %s' % ', '.join(ORACLES[prop]),
                                       'bound': '%s; histories of at most 10 generated steps (migration 14, instantiate 2), seed %d' % (note, seed or 1),
                                       'counts_as': 'bounded exploration only - the property stays undecided when nothing is found', 'runs': runs}]
@@ -799,7 +799,7 @@ def finish(prop, tier, seed, results, t_start, extra=None):
                 if os.environ.get('VERIF_NO_WITNESS'):
                     witness_cache['w'] = (None, 'witness search skipped')
                 else:
-                    witness_cache['w'] = witness_search(prop, seed or 1, rdir, 3000 if tier == 'quick' else 20000)
+                    witness_cache['w'] = witness_search(prop, seed or 1, rdir, 5000 if tier == 'quick' else 20000)
             witness, note = witness_cache['w']
             if v.get('novel') and not witness:
                 # the failing function uses library constructs no function of the audited tree used: the obligation may
@@ -829,7 +829,7 @@ def finish(prop, tier, seed, results, t_start, extra=None):
         # violation (replayable input); finding none leaves the property undecided.
         if out_of_reach and ORACLES.get(prop) and not os.environ.get('VERIF_NO_WITNESS'):
             rdir = os.path.join(VERIF, 'replays', prop)
-            iters = 3000 if tier == 'quick' else 12000
+            iters = 5000 if tier == 'quick' else 12000
             hits, runs, note = run_searches(prop, seed or 1, iters, rdir, 'bounded')
             ev['coverage']['bounded'] = [{'functions': sorted(set(out_of_reach)), 'stand_in': 'randomized search over histories of the real contract with the oracle(s) %s' % ', '.join(ORACLES[prop]),
                                           'bound': '%s; histories of at most 10 generated steps (migration 14, instantiate 2), seed %d' % (note, seed or 1),
